@@ -745,6 +745,11 @@ class NetworkGraph(AbstractBaseIR):
                 sidx_str = 'source_idx'
                 tidx_str = 'target_idx'
 
+            # source and target variable of an edge may carry the same name (e.g. `r -> r`); inside the edge
+            # operator they are two different variables and need two different local names
+            if s_str == t_str:
+                s_str = f'{svar}_source{i}'
+
             # case 0g: global edge — weight is a 0-d (scalar) array (used by
             # Connectivity for uniform all-to-all coupling). Realized as a reduction
             # t = w * vsum(source), broadcast to all targets, WITHOUT ever forming an
